@@ -3,6 +3,8 @@ package main
 import (
 	"fmt"
 	"go/token"
+	"go/types"
+	"strings"
 
 	"golang.org/x/tools/go/ssa"
 )
@@ -117,11 +119,13 @@ func runC18(r *Run) {
 	// ---- R4: the bounds reach the comparisons unswapped and unconverted
 	r.Rule("C18.R4")
 	asTime := "(*timestamppb.Timestamp).AsTime(p0.%s)"
+	fStart, fLimit := c18WindowFields(r) // the start / limit fields of CertValidationOpts (by name, else by their role in ValidateChain)
 	if fn := r.Fn("client.shardInterval"); fn != nil {
+		src := c18ShardBounds(r, fn)
 		for _, p := range [][2]string{{"lower", "NotAfterStart"}, {"upper", "NotAfterLimit"}} {
 			sts := r.StoresTo(fn, "&(new:client.interval#*."+p[0]+")")
 			r.Check("shardInterval:"+p[0]+"-set", len(sts) == 1, r.FnPos(fn), fmt.Sprintf("%d stores to interval.%s", len(sts), p[0]))
-			r.ExpectPointee(fn, "shardInterval:"+p[0]+"←"+p[1], "new:client.interval#*."+p[0], fmt.Sprintf(asTime, p[1]), 1)
+			r.ExpectPointee(fn, "shardInterval:"+p[0]+"←"+p[1], "new:client.interval#*."+p[0], "(*timestamppb.Timestamp).AsTime("+src[p[1]]+")", 1)
 		}
 	}
 	if fn := r.Fn("trillian/ctfe.ValidateLogConfig"); fn != nil {
@@ -130,12 +134,12 @@ func runC18(r *Run) {
 		}
 	}
 	if fn := r.Fn("trillian/ctfe.setUpLogInfo"); fn != nil {
-		r.ExpectStores(fn, "setUpLogInfo:notAfterStart", "&(new:trillian/ctfe.CertValidationOpts#*.notAfterStart)", "p1.Validated.NotAfterStart", 1)
-		r.ExpectStores(fn, "setUpLogInfo:notAfterLimit", "&(new:trillian/ctfe.CertValidationOpts#*.notAfterLimit)", "p1.Validated.NotAfterLimit", 1)
+		r.ExpectStores(fn, "setUpLogInfo:notAfterStart", "&(new:trillian/ctfe.CertValidationOpts#*."+fStart+")", "p1.Validated.NotAfterStart", 1)
+		r.ExpectStores(fn, "setUpLogInfo:notAfterLimit", "&(new:trillian/ctfe.CertValidationOpts#*."+fLimit+")", "p1.Validated.NotAfterLimit", 1)
 	}
 	if fn := r.Fn("trillian/ctfe.NewCertValidationOpts"); fn != nil {
-		r.ExpectStores(fn, "NewCertValidationOpts:notAfterStart", "&(new:trillian/ctfe.CertValidationOpts#*.notAfterStart)", "p4", 1)
-		r.ExpectStores(fn, "NewCertValidationOpts:notAfterLimit", "&(new:trillian/ctfe.CertValidationOpts#*.notAfterLimit)", "p5", 1)
+		r.ExpectStores(fn, "NewCertValidationOpts:notAfterStart", "&(new:trillian/ctfe.CertValidationOpts#*."+fStart+")", "p4", 1)
+		r.ExpectStores(fn, "NewCertValidationOpts:notAfterLimit", "&(new:trillian/ctfe.CertValidationOpts#*."+fLimit+")", "p5", 1)
 	}
 	if fn := r.Fn("trillian/integration.NotAfterForLog"); fn != nil {
 		c18NotAfterForLog(r, fn)
@@ -175,11 +179,60 @@ func wSliceBase(v ssa.Value) ssa.Value {
 
 // c18ValidateChainWindow decides the NotAfter window of ValidateChain (used by C18.R1 and C02.R1).
 func c18ValidateChainWindow(r *Run, fn *ssa.Function, name string) {
+	fS, fL := c18WindowFields(r)
+	if fS != "notAfterStart" || fL != "notAfterLimit" {
+		r.Pass(name+":window-bounds-by-role", r.FnPos(fn), "CertValidationOpts has no fields notAfterStart / notAfterLimit; its *time.Time fields are taken in the roles ValidateChain gives them: start = p1."+fS+", limit = p1."+fL)
+	}
+	c18WindowTable(r, fn, name, fS, fL)
+}
+
+// c18WindowFields names the two optional bounds of the admission window in CertValidationOpts: the fields
+// notAfterStart / notAfterLimit, or — when the struct has no fields of these names — its two *time.Time
+// fields in the roles that ValidateChain gives them: the start is the field under which the window table of
+// the property holds as the lower bound (t < start rejects), the limit the other one. Every rule that follows
+// a bound from the configuration to the comparison (C18.R4, C15.R5) uses the field that plays that role.
+var c18FieldsMemo = map[*Prog][2]string{}
+
+func c18WindowFields(r *Run) (start, limit string) {
+	if m, ok := c18FieldsMemo[r.P]; ok {
+		return m[0], m[1]
+	}
+	start, limit = "notAfterStart", "notAfterLimit"
+	defer func() { c18FieldsMemo[r.P] = [2]string{start, limit} }()
+	const opts = "trillian/ctfe.CertValidationOpts"
+	if r.P.LookupField(opts+"."+start) != nil && r.P.LookupField(opts+"."+limit) != nil {
+		return
+	}
+	var cand []string
+	if n := r.P.LookupType(opts); n != nil {
+		if st, ok := n.Underlying().(*types.Struct); ok {
+			for i := 0; i < st.NumFields(); i++ {
+				if TypeName(st.Field(i).Type()) == "*time.Time" {
+					cand = append(cand, st.Field(i).Name())
+				}
+			}
+		}
+	}
+	fn := r.P.Func("trillian/ctfe.ValidateChain")
+	if len(cand) != 2 || fn == nil || len(fn.Blocks) == 0 {
+		return
+	}
+	start, limit = cand[0], cand[1]
+	for _, try := range [][2]string{{cand[0], cand[1]}, {cand[1], cand[0]}} {
+		if r.Trial(func() { c18WindowTable(r, fn, "ValidateChain", try[0], try[1]) }) {
+			start, limit = try[0], try[1]
+			break
+		}
+	}
+	return
+}
+
+func c18WindowTable(r *Run, fn *ssa.Function, name, fS, fL string) {
 	verify := r.OneCall(fn, name+":Verify", "(*x509.Certificate).Verify")
 	if verify == nil {
 		return
 	}
-	pS, pL := "nil?p1.notAfterStart", "nil?p1.notAfterLimit"
+	pS, pL := "nil?p1."+fS, "nil?p1."+fL
 	var base map[*ssa.Return]bool
 	rejects := map[*ssa.Return]bool{}
 	stop := map[*ssa.BasicBlock]bool{verify.Block(): true}
@@ -193,7 +246,7 @@ func c18ValidateChainWindow(r *Run, fn *ssa.Function, name string) {
 		}
 		return out
 	}
-	r.CheckWindow(Window{Name: name, Fn: fn, T: "*[0].NotAfter", S: "*p1.notAfterStart", L: "*p1.notAfterLimit", PresS: pS, PresL: pL,
+	r.CheckWindow(Window{Name: name, Fn: fn, T: "*[0].NotAfter", S: "*p1." + fS, L: "*p1." + fL, PresS: pS, PresL: pL,
 		Outcome: func(val map[string]string, reach *Reach, entry *ssa.BasicBlock) (bool, bool, string) {
 			if base == nil { // the returns that may execute when no window is configured
 				s := Sigma{}
@@ -220,7 +273,7 @@ func c18ValidateChainWindow(r *Run, fn *ssa.Function, name string) {
 	// the instant compared is the NotAfter of the submitted leaf: element 0 of the parsed chain
 	if ce := r.OneCall(fn, name+":chainsEquivalent", "trillian/ctfe.chainsEquivalent"); ce != nil {
 		chain := r.D.D(CallArgs(ce)[0])
-		for _, b := range []string{"*p1.notAfterStart", "*p1.notAfterLimit"} {
+		for _, b := range []string{"*p1." + fS, "*p1." + fL} {
 			atoms := r.D.AtomsOf(fn)
 			for _, k := range r.bindAtom(fn, RuleAtom{OrdA: "*[0].NotAfter", OrdB: b}) {
 				t := atoms[k].A
@@ -233,28 +286,136 @@ func c18ValidateChainWindow(r *Run, fn *ssa.Function, name string) {
 	}
 }
 
+// c18ShardBounds tells how shardInterval receives the two timestamps of a shard, as callee-side terms:
+// as fields of its shard parameter (p0.NotAfterStart, p0.NotAfterLimit) or, when it takes two timestamp
+// parameters instead, as these parameters — then every caller must pass the NotAfterStart and the
+// NotAfterLimit of one and the same shard in these positions (recorded as an obligation).
+func c18ShardBounds(r *Run, fn *ssa.Function) map[string]string {
+	out := map[string]string{"NotAfterStart": "p0.NotAfterStart", "NotAfterLimit": "p0.NotAfterLimit"}
+	var ts []int
+	for i, p := range fn.Params {
+		if strings.HasSuffix(TypeName(p.Type()), "timestamppb.Timestamp") {
+			ts = append(ts, i)
+		}
+	}
+	if len(ts) != 2 {
+		return out
+	}
+	split := func(term string) (base, field string) {
+		for _, f := range []string{"NotAfterStart", "NotAfterLimit"} {
+			if strings.HasSuffix(term, "."+f) {
+				return strings.TrimSuffix(term, "."+f), f
+			}
+			if g := "(*client/configpb.LogShardConfig).Get" + f + "("; strings.HasPrefix(term, g) && strings.HasSuffix(term, ")") {
+				return term[len(g) : len(term)-1], f
+			}
+		}
+		return term, ""
+	}
+	role := map[int]string{}
+	ok, detail, n := true, "", 0
+	callers := r.CallersOf("client.shardInterval")
+	for _, g := range keysOf(callers) {
+		for _, c := range callers[g] {
+			n++
+			bases := map[string]bool{}
+			for _, i := range ts {
+				base, f := split(r.D.D(CallArgs(c)[i]))
+				if f == "" || role[i] != "" && role[i] != f {
+					ok, detail = false, "argument "+r.D.D(CallArgs(c)[i])+" at "+r.Where(c)
+				}
+				role[i] = f
+				bases[base] = true
+			}
+			if len(bases) != 1 {
+				ok, detail = false, "the two timestamps passed at "+r.Where(c)+" belong to different shards"
+			}
+		}
+	}
+	ok = ok && n > 0 && role[ts[0]] != role[ts[1]]
+	r.Check("shardInterval:callers-pass-one-shard's-bounds", ok, r.FnPos(fn), fmt.Sprintf("shardInterval takes the timestamps as parameters p%d, p%d; all %d callers pass NotAfterStart / NotAfterLimit of one shard in fixed positions %s", ts[0], ts[1], n, detail))
+	if ok {
+		for _, i := range ts {
+			out[role[i]] = fmt.Sprintf("p%d", i)
+		}
+	}
+	return out
+}
+
 func c18NewTemporalLogClient(r *Run, fn *ssa.Function) {
 	key := "NewTemporalLogClient"
-	ovr := r.allocOf(fn, "client.shardInterval(p0.Shard[0])#0")
-	cur := r.allocOf(fn, "client.shardInterval(p0.Shard[it@*])#0")
+	// shardInterval(Shard[i]) — or, where it takes the two timestamps, shardInterval(Shard[i].NotAfterStart, Shard[i].NotAfterLimit):
+	// that both stem from Shard[i] is the obligation shardInterval:callers-pass-one-shard's-bounds
+	ovr := r.allocOf(fn, "client.shardInterval(p0.Shard[0]*)#0")
+	cur := r.allocOf(fn, "client.shardInterval(p0.Shard[it@*]*)#0")
 	if !r.Check(key+":overall/next", ovr != "" && cur != "" && ovr != cur, r.FnPos(fn), "overall span starts as shardInterval(Shard[0]) in "+ovr+"; each later shard is shardInterval(Shard[i]) in "+cur) {
 		return
 	}
 	r.ErrorsGate(fn, key+":invalid-shard", "client.shardInterval", 2)
 	r.FailEdge(fn, key, EdgeSpec{Name: "empty-config", Atom: ordAtomR("0", "len((*client/configpb.TemporalLogConfig).GetShard(*))"), Bad: "=", Want: wantErr(true)})
-	appends := asInstrs(CallsTo(fn, "append"))
 	var ext []ssa.Instruction // the append of a later shard and the extension of the overall span
 	for _, st := range r.StoresTo(fn, "&("+ovr+".upper)") {
 		r.Check(key+":span-extended-by-new-upper", r.D.D(st.Val) == cur+".upper", r.Where(st), "overall.upper ← "+r.D.D(st.Val))
 		ext = append(ext, st)
 	}
 	r.Check(key+":span-extended", len(ext) == 1, r.FnPos(fn), fmt.Sprintf("%d stores to overall.upper", len(ext)))
-	for _, a := range appends {
-		if a.Block() != fn.Blocks[0] && len(ext) > 0 && a.Block() == ext[0].Block() {
-			ext = append(ext, a)
+	// the index of the later shard
+	shardIdx := ""
+	for _, c := range CallsTo(fn, "client.shardInterval") {
+		if i := indexOfElem(CallArgs(c)[0]); i != nil && glob("it@*", r.D.D(i)) {
+			shardIdx = r.D.D(i)
 		}
 	}
+	// the result: intervals = [overall as it was for shard 0, then every later shard's interval], Clients = [client of shard i],
+	// built by appends in this order or by index assignment at the shard's index into slices of len(Shard)
 	succ := successReturns(fn)
+	isVal := func(v ssa.Value, alloc string) bool { d := r.D.D(v); return d == alloc || d == "*"+alloc }
+	shardLen := func(makes []*ssa.MakeSlice) bool {
+		return len(makes) == 1 && anyGlob("len(p0.Shard) || len((*client/configpb.TemporalLogConfig).GetShard(p0))", r.D.D(makes[0].Len))
+	}
+	for _, ret := range succ {
+		a := baseAlloc(ret.(*ssa.Return).Results[0])
+		if a == nil {
+			r.Fail(key+":result", r.Where(ret), "undecided: the result is not built in a local allocation")
+			continue
+		}
+		for _, st := range r.storesAt(fn, "&("+r.D.allocName(a)+".intervals)") {
+			fills, makes, built := sliceFills(st.Val)
+			nFirst, nLater := 0, 0
+			good := built
+			for _, f := range fills {
+				switch {
+				case isVal(f.Elem, ovr) && loopHeaderOf(f.In.Block()) == nil:
+					nFirst++
+					good = good && (f.Index == nil || r.D.D(f.Index) == "0" && shardLen(makes))
+				case isVal(f.Elem, cur) && len(ext) > 0 && f.In.Block() == ext[0].Block():
+					nLater++
+					ext = append(ext, f.In)
+					good = good && (f.Index == nil || r.D.D(f.Index) == shardIdx && shardLen(makes))
+				default:
+					good = false
+				}
+			}
+			r.Check(key+":result.intervals", good && nFirst == 1 && nLater == 1, r.Where(st), fmt.Sprintf("intervals ← %s: %d fills (first shard's interval before the loop: %d, later shard's interval where the span is extended: %d)", clipStr(r.D.D(st.Val), 80), len(fills), nFirst, nLater))
+		}
+		for _, st := range r.storesAt(fn, "&("+r.D.allocName(a)+".Clients)") {
+			fills, makes, built := sliceFills(st.Val)
+			good := built && len(fills) == 1
+			for _, f := range fills {
+				el := r.D.D(f.Elem)
+				good = good && glob("client.New(p0.Shard[it@*].Uri, *)#0", el)
+				if f.Index != nil {
+					good = good && glob("client.New(p0.Shard["+r.D.D(f.Index)+"].Uri, *)#0", el) && shardLen(makes)
+				}
+			}
+			r.Check(key+":result.Clients", good, r.Where(st), fmt.Sprintf("Clients ← %s: %d fills with the client of shard i (at position i)", clipStr(r.D.D(st.Val), 80), len(fills)))
+		}
+		for _, f := range []string{"intervals", "Clients"} {
+			if len(r.storesAt(fn, "&("+r.D.allocName(a)+"."+f+")")) == 0 {
+				r.Fail(key+":result."+f, r.Where(ret), "the result's "+f+" are never set")
+			}
+		}
+	}
 	for _, e := range []EdgeSpec{
 		{Name: "extends-unbounded", Atom: nilAtom(ovr + ".upper"), Bad: "nil"},
 		{Name: "no-lower-bound", Atom: nilAtom(cur + ".lower"), Bad: "nil"},
@@ -272,24 +433,15 @@ func c18NewTemporalLogClient(r *Run, fn *ssa.Function) {
 	}
 	// interval i and client i both stem from shard i: the loop over later shards starts at 1
 	for _, c := range CallsTo(fn, "client.shardInterval") {
-		u, ok := CallArgs(c)[0].(*ssa.UnOp)
-		if !ok {
-			continue
-		}
-		if ia, ok := u.X.(*ssa.IndexAddr); ok {
-			if ph, ok := ia.Index.(*ssa.Phi); ok && isInduction(ph) {
-				good := false
-				for _, e := range ph.Edges {
-					if k, ok := e.(*ssa.Const); ok && constString(k) == "1" {
-						good = true
-					}
+		if ph, ok := indexOfElem(CallArgs(c)[0]).(*ssa.Phi); ok && isInduction(ph) {
+			good := false
+			for _, e := range ph.Edges {
+				if k, ok := e.(*ssa.Const); ok && constString(k) == "1" {
+					good = true
 				}
-				r.Check(key+":later-shards-from-1", good, r.Where(c), "the loop over later shards starts at index 1")
 			}
+			r.Check(key+":later-shards-from-1", good, r.Where(c), "the loop over later shards starts at index 1")
 		}
-	}
-	for _, ret := range succ {
-		r.ExpectFields(fn, key+":result", ret.(*ssa.Return).Results[0], map[string]string{"intervals": "*append(*new:[1]client.interval#*", "Clients": "*append(*new:[1]*client.LogClient#*"})
 	}
 	for _, c := range CallsTo(fn, "client.New") {
 		r.ExpectArg(c, key+":client-of-shard", 0, "p0.Shard[*it@*].Uri")
